@@ -679,10 +679,9 @@ func (ex *Exec) havoc(st *State, ws *WriteSet, why string, fr *Frame) {
 		ex.warn("havoc of the whole heap at %s: %s", why, ws.why)
 		old := st.heap
 		st.heap = newHeap(st.wm)
-		if len(ws.except) > 0 {
-			st.heap.base.except = ws.except
-			st.heap.base.exceptParent = old
-		}
+		// ghost variables are specification state: program code cannot touch them, only contracts that name them
+		st.heap.base.except = append(append([]string{}, ws.except...), "GH:")
+		st.heap.base.exceptParent = old
 		for k := range ws.keys {
 			if srt, ok := keySortReg[k]; ok {
 				st.heap.m[k] = Fresh(k+"."+why, srt)
